@@ -13,7 +13,18 @@
    There are exactly Workers batch objects and both channels have capacity Workers, so a channel send never
    blocks -- but a send on the CLOSED fullBatches channel panics.  SendUnderLock = TRUE is the code since the repair
    08b19bf; FALSE is the order of the pinned commit (defect D9): Stop could close the channel in the gap between
-   mu.Unlock and the send.  The FALSE configuration is kept as a spec mutant that must reach the panic state.  *)
+   mu.Unlock and the send.  The FALSE configuration is kept as a spec mutant that must reach the panic state.
+
+   Batch OBJECTS are recycled, so the spec numbers their uses: gen counts the times a batch was taken from freeBatches;
+   the open batch is use curGen; a sealed batch carries the use it was sealed in.  Formation order = order of gen.
+   Two mechanisms are switched:
+     M_HeartbeatOneSection  the heartbeat looks at the open batch and seals it inside ONE critical section.  Off: it
+                            remembers the expired batch, releases mu, and seals "that batch" in a second section -- an Add in
+                            between has sealed it already (an expired batch is ready for Add too), so the same object is
+                            enqueued twice and the batch being collected is forgotten                  (HandOverOnce)
+     M_StopLeavesPartial    Stop does not touch the open batch (its events stay uncommitted and are read again after a
+                            restart).  Off: Stop sends and commits the open batch itself, past the commit turn of batches
+                            that are still being sent                                            (CommitInSeqOrder)  *)
 EXTENDS Integers, Sequences, FiniteSets, TLC
 
 CONSTANTS Adders,          \* adder goroutines (each adds its events one by one)
@@ -22,7 +33,8 @@ CONSTANTS Adders,          \* adder goroutines (each adds its events one by one)
           Sizes,           \* event sizes; BatchBytes = 0 disables the byte limit
           BatchBytes,
           SendUnderLock,
-          WithStop         \* include a Stop() call
+          WithStop,        \* include a Stop() call
+          M_HeartbeatOneSection, M_StopLeavesPartial
 
 Ev == Adders \X (1..PerAdder)
 W == 1..Workers
@@ -36,13 +48,16 @@ VARIABLES mu,          \* holder of b.mu ("none", an adder, "hb", "stop")
           wpc, wbatch,        \* worker state
           spc,                \* Stop(): "idle" | "wait" | "done"
           size,               \* [Ev -> Sizes] chosen at Init
+          gen, curGen,        \* uses of batch objects so far ; the use that is the open batch
+          peek,               \* ~M_HeartbeatOneSection: the use the heartbeat decided to flush (-1: none)
+          rest,               \* ~M_StopLeavesPartial: what Stop took out of the open batch
           age,                \* heartbeat ticks since the open batch got its first event (abstract time)
           sent, committed, panicked
 
 vars == <<mu, shouldStop, closed, cur, hasCur, free, full, outSeq, commitSeq, seqLock, apc, anext, pend, wpc, wbatch, spc,
-          size, age, sent, committed, panicked>>
+          size, gen, curGen, peek, rest, age, sent, committed, panicked>>
 
-NoBatch == [ids |-> <<>>, seq |-> -1]
+NoBatch == [ids |-> <<>>, seq |-> -1, gen |-> -1]
 
 Init == /\ mu = "none" /\ shouldStop = FALSE /\ closed = FALSE
         /\ cur = <<>> /\ hasCur = FALSE /\ free = Workers /\ full = <<>> /\ outSeq = 0 /\ commitSeq = 0 /\ seqLock = 0
@@ -50,83 +65,125 @@ Init == /\ mu = "none" /\ shouldStop = FALSE /\ closed = FALSE
         /\ wpc = [k \in W |-> "recv"] /\ wbatch = [k \in W |-> NoBatch]
         /\ spc = IF WithStop THEN "idle" ELSE "done"
         /\ size \in [Ev -> Sizes]
+        /\ gen = 0 /\ curGen = -1 /\ peek = -1 /\ rest = NoBatch
         /\ age = 0 /\ sent = <<>> /\ committed = <<>> /\ panicked = FALSE
 
 Bytes(b) == LET RECURSIVE Sum(_) Sum(s) == IF s = <<>> THEN 0 ELSE size[Head(s)] + Sum(Tail(s)) IN Sum(b)
 Ready(b, timeout) == b # <<>> /\ ((BatchCount # 0 /\ Len(b) >= BatchCount) \/ (BatchBytes # 0 /\ Bytes(b) >= BatchBytes) \/ timeout)
 
 \* ---- Add / heartbeat, thread t
-LockMu(t) == /\ apc[t] = "idle" /\ mu = "none" /\ ~panicked
+LockMu(t) == /\ apc[t] \in {"idle", "peeked"} /\ mu = "none" /\ ~panicked
              /\ (t \in Adders => anext[t] <= PerAdder)
-             /\ (t = "hb" => (hasCur /\ cur # <<>>) \/ shouldStop)      \* a tick over an empty batcher changes nothing: left out (keeps liveness checkable under WF)
-             /\ mu' = t /\ apc' = [apc EXCEPT ![t] = "locked"]
-             /\ UNCHANGED <<shouldStop, closed, cur, hasCur, free, full, outSeq, commitSeq, seqLock, anext, pend, wpc, wbatch, spc, size, age, sent, committed, panicked>>
+             /\ (t = "hb" /\ apc[t] = "idle" => (hasCur /\ cur # <<>>) \/ shouldStop)      \* a tick over an empty batcher changes nothing: left out (keeps liveness checkable under WF)
+             /\ mu' = t /\ apc' = [apc EXCEPT ![t] = IF apc[t] = "peeked" THEN "flush" ELSE "locked"]
+             /\ UNCHANGED <<shouldStop, closed, cur, hasCur, free, full, outSeq, commitSeq, seqLock, anext, pend, wpc, wbatch, spc, size, gen, curGen, peek, rest, age, sent, committed, panicked>>
 
-\* under mu: shouldStop check, getBatch (blocks on free = 0 while holding mu), append, updateStatus, seal
+\* under mu: shouldStop check, getBatch (blocks on free = 0 while holding mu), append, updateStatus, seal.
+\* updateStatus looks at the clock for everybody: an Add seals an expired batch too.
 Critical(t) ==
   /\ apc[t] = "locked"
   /\ IF shouldStop
        THEN /\ mu' = "none" /\ apc' = [apc EXCEPT ![t] = IF t = "hb" THEN "done" ELSE "idle"]
             /\ anext' = IF t \in Adders THEN [anext EXCEPT ![t] = @ + 1] ELSE anext     \* Add returns silently: the event is dropped
-            /\ UNCHANGED <<cur, hasCur, free, full, outSeq, pend, age>>
+            /\ UNCHANGED <<cur, hasCur, free, full, outSeq, pend, age, gen, curGen, peek>>
        ELSE /\ (hasCur \/ free > 0)
             /\ LET c0 == IF hasCur THEN cur ELSE <<>>
                    c1 == IF t \in Adders THEN Append(c0, <<t, anext[t]>>) ELSE c0
-                   timeout == (t = "hb" /\ age >= 1)
-               IN IF Ready(c1, timeout)
-                    THEN /\ pend' = [pend EXCEPT ![t] = [ids |-> c1, seq |-> outSeq]]
-                         /\ outSeq' = outSeq + 1 /\ cur' = <<>> /\ hasCur' = FALSE /\ age' = 0
-                         /\ free' = IF hasCur THEN free ELSE free - 1
-                         /\ IF SendUnderLock
-                              THEN /\ full' = Append(full, [ids |-> c1, seq |-> outSeq]) /\ mu' = "none"
-                                   /\ apc' = [apc EXCEPT ![t] = "idle"]
-                              ELSE /\ mu' = "none" /\ apc' = [apc EXCEPT ![t] = "gap"] /\ UNCHANGED full
-                    ELSE /\ cur' = c1 /\ hasCur' = TRUE /\ free' = IF hasCur THEN free ELSE free - 1
-                         /\ age' = IF t = "hb" /\ c1 # <<>> THEN age + 1 ELSE age
-                         /\ mu' = "none" /\ apc' = [apc EXCEPT ![t] = "idle"]
-                         /\ UNCHANGED <<full, outSeq, pend>>
+                   g  == IF hasCur THEN curGen ELSE gen + 1
+                   timeout == age >= 1
+               IN /\ gen' = IF hasCur THEN gen ELSE gen + 1
+                  /\ IF t = "hb" /\ ~M_HeartbeatOneSection
+                       THEN \* first section of the split heartbeat: only look
+                            /\ cur' = c1 /\ hasCur' = TRUE /\ curGen' = g /\ free' = IF hasCur THEN free ELSE free - 1
+                            /\ IF Ready(c1, timeout)
+                                 THEN /\ peek' = g /\ apc' = [apc EXCEPT ![t] = "peeked"] /\ UNCHANGED age
+                                 ELSE /\ peek' = -1 /\ apc' = [apc EXCEPT ![t] = "idle"]
+                                      /\ age' = IF c1 # <<>> THEN age + 1 ELSE age
+                            /\ mu' = "none" /\ UNCHANGED <<full, outSeq, pend>>
+                       ELSE IF Ready(c1, timeout)
+                         THEN /\ pend' = [pend EXCEPT ![t] = [ids |-> c1, seq |-> outSeq, gen |-> g]]
+                              /\ outSeq' = outSeq + 1 /\ cur' = <<>> /\ hasCur' = FALSE /\ age' = 0 /\ curGen' = -1
+                              /\ free' = IF hasCur THEN free ELSE free - 1
+                              /\ UNCHANGED peek
+                              /\ IF SendUnderLock
+                                   THEN /\ full' = Append(full, [ids |-> c1, seq |-> outSeq, gen |-> g]) /\ mu' = "none"
+                                        /\ apc' = [apc EXCEPT ![t] = "idle"]
+                                   ELSE /\ mu' = "none" /\ apc' = [apc EXCEPT ![t] = "gap"] /\ UNCHANGED full
+                         ELSE /\ cur' = c1 /\ hasCur' = TRUE /\ curGen' = g /\ free' = IF hasCur THEN free ELSE free - 1
+                              /\ age' = IF t = "hb" /\ c1 # <<>> THEN age + 1 ELSE age
+                              /\ mu' = "none" /\ apc' = [apc EXCEPT ![t] = "idle"]
+                              /\ UNCHANGED <<full, outSeq, pend, peek>>
             /\ anext' = IF t \in Adders THEN [anext EXCEPT ![t] = @ + 1] ELSE anext
-  /\ UNCHANGED <<shouldStop, closed, commitSeq, seqLock, wpc, wbatch, spc, size, sent, committed, panicked>>
+  /\ UNCHANGED <<shouldStop, closed, commitSeq, seqLock, wpc, wbatch, spc, size, rest, sent, committed, panicked>>
+
+\* second section of the split heartbeat (~M_HeartbeatOneSection): seal the batch object remembered in the first one,
+\* whatever happened to it in between
+SealedAnywhere == {full[i] : i \in 1..Len(full)} \cup {wbatch[k] : k \in W} \cup {sent[i] : i \in 1..Len(sent)}
+HbFlush ==
+  /\ apc["hb"] = "flush"
+  /\ IF shouldStop
+       THEN /\ mu' = "none" /\ apc' = [apc EXCEPT !["hb"] = "done"]
+            /\ UNCHANGED <<cur, hasCur, curGen, full, outSeq, age, peek>>
+       ELSE /\ mu' = "none" /\ apc' = [apc EXCEPT !["hb"] = "idle"] /\ peek' = -1
+            /\ IF hasCur /\ curGen = peek
+                 THEN \* nobody came in between: the open batch is still the one looked at
+                      /\ full' = Append(full, [ids |-> cur, seq |-> outSeq, gen |-> curGen])
+                      /\ outSeq' = outSeq + 1 /\ cur' = <<>> /\ hasCur' = FALSE /\ curGen' = -1 /\ age' = 0
+                 ELSE \* an Add sealed it: its events are still in the object, it is "ready" again, gets a new sequence
+                      \* number and is enqueued a second time; b.batch = nil forgets the batch being collected
+                      /\ LET r == CHOOSE x \in SealedAnywhere : x.gen = peek
+                         IN full' = Append(full, [ids |-> r.ids, seq |-> outSeq, gen |-> peek])
+                      /\ outSeq' = outSeq + 1 /\ cur' = <<>> /\ hasCur' = FALSE /\ curGen' = -1 /\ age' = 0
+  /\ UNCHANGED <<shouldStop, closed, free, commitSeq, seqLock, anext, pend, wpc, wbatch, spc, size, gen, rest, sent, committed, panicked>>
 
 \* the pinned code: the channel send happens after mu.Unlock
 GapSend(t) == /\ apc[t] = "gap"
               /\ IF closed THEN /\ panicked' = TRUE /\ UNCHANGED full                   \* send on closed channel
                            ELSE /\ full' = Append(full, pend[t]) /\ UNCHANGED panicked
               /\ apc' = [apc EXCEPT ![t] = "idle"]
-              /\ UNCHANGED <<mu, shouldStop, closed, cur, hasCur, free, outSeq, commitSeq, seqLock, anext, pend, wpc, wbatch, spc, size, age, sent, committed>>
+              /\ UNCHANGED <<mu, shouldStop, closed, cur, hasCur, free, outSeq, commitSeq, seqLock, anext, pend, wpc, wbatch, spc, size, gen, curGen, peek, rest, age, sent, committed>>
 
 \* ---- workers
 Recv(k) == /\ wpc[k] = "recv" /\ ~panicked
            /\ IF full # <<>>
                 THEN /\ wbatch' = [wbatch EXCEPT ![k] = Head(full)] /\ full' = Tail(full) /\ wpc' = [wpc EXCEPT ![k] = "send"]
                 ELSE /\ closed /\ wpc' = [wpc EXCEPT ![k] = "exit"] /\ UNCHANGED <<wbatch, full>>
-           /\ UNCHANGED <<mu, shouldStop, closed, cur, hasCur, free, outSeq, commitSeq, seqLock, apc, anext, pend, spc, size, age, sent, committed, panicked>>
+           /\ UNCHANGED <<mu, shouldStop, closed, cur, hasCur, free, outSeq, commitSeq, seqLock, apc, anext, pend, spc, size, gen, curGen, peek, rest, age, sent, committed, panicked>>
 Send(k) == /\ wpc[k] = "send"
            /\ sent' = Append(sent, wbatch[k]) /\ wpc' = [wpc EXCEPT ![k] = "turn"]
-           /\ UNCHANGED <<mu, shouldStop, closed, cur, hasCur, free, full, outSeq, commitSeq, seqLock, apc, anext, pend, wbatch, spc, size, age, committed, panicked>>
+           /\ UNCHANGED <<mu, shouldStop, closed, cur, hasCur, free, full, outSeq, commitSeq, seqLock, apc, anext, pend, wbatch, spc, size, gen, curGen, peek, rest, age, committed, panicked>>
 Turn(k) == /\ wpc[k] = "turn" /\ seqLock = 0 /\ commitSeq = wbatch[k].seq
            /\ seqLock' = k /\ commitSeq' = commitSeq + 1
            /\ committed' = committed \o wbatch[k].ids
            /\ wpc' = [wpc EXCEPT ![k] = "release"]
-           /\ UNCHANGED <<mu, shouldStop, closed, cur, hasCur, free, full, outSeq, apc, anext, pend, wbatch, spc, size, age, sent, panicked>>
+           /\ UNCHANGED <<mu, shouldStop, closed, cur, hasCur, free, full, outSeq, apc, anext, pend, wbatch, spc, size, gen, curGen, peek, rest, age, sent, panicked>>
 Release(k) == /\ wpc[k] = "release"
               /\ free' = free + 1 /\ seqLock' = 0 /\ wpc' = [wpc EXCEPT ![k] = "recv"] /\ wbatch' = [wbatch EXCEPT ![k] = NoBatch]
-              /\ UNCHANGED <<mu, shouldStop, closed, cur, hasCur, full, outSeq, commitSeq, apc, anext, pend, spc, size, age, sent, committed, panicked>>
+              /\ UNCHANGED <<mu, shouldStop, closed, cur, hasCur, full, outSeq, commitSeq, apc, anext, pend, spc, size, gen, curGen, peek, rest, age, sent, committed, panicked>>
 
 \* ---- Stop
 StopLock == /\ spc = "idle" /\ mu = "none" /\ ~panicked
-            /\ shouldStop' = TRUE /\ closed' = TRUE /\ spc' = "wait"
-            /\ UNCHANGED <<mu, cur, hasCur, free, full, outSeq, commitSeq, seqLock, apc, anext, pend, wpc, wbatch, size, age, sent, committed, panicked>>
+            /\ shouldStop' = TRUE /\ closed' = TRUE
+            /\ IF ~M_StopLeavesPartial /\ hasCur /\ cur # <<>>
+                 THEN /\ rest' = [ids |-> cur, seq |-> -1, gen |-> curGen] /\ cur' = <<>> /\ hasCur' = FALSE /\ curGen' = -1
+                      /\ spc' = "flush"
+                 ELSE /\ spc' = "wait" /\ UNCHANGED <<rest, cur, hasCur, curGen>>
+            /\ UNCHANGED <<mu, free, full, outSeq, commitSeq, seqLock, apc, anext, pend, wpc, wbatch, size, gen, peek, age, sent, committed, panicked>>
+\* ~M_StopLeavesPartial: Stop sends and commits what was collected, from its own goroutine, outside the commit chain
+StopFlush == /\ spc = "flush"
+             /\ sent' = Append(sent, rest) /\ committed' = committed \o rest.ids /\ spc' = "wait"
+             /\ UNCHANGED <<mu, shouldStop, closed, cur, hasCur, free, full, outSeq, commitSeq, seqLock, apc, anext, pend, wpc, wbatch, size, gen, curGen, peek, rest, age, panicked>>
 StopWait == /\ spc = "wait" /\ \A k \in W : wpc[k] = "exit"
             /\ spc' = "done"
-            /\ UNCHANGED <<mu, shouldStop, closed, cur, hasCur, free, full, outSeq, commitSeq, seqLock, apc, anext, pend, wpc, wbatch, size, age, sent, committed, panicked>>
+            /\ UNCHANGED <<mu, shouldStop, closed, cur, hasCur, free, full, outSeq, commitSeq, seqLock, apc, anext, pend, wpc, wbatch, size, gen, curGen, peek, rest, age, sent, committed, panicked>>
 
 Next == \/ \E t \in Threads : LockMu(t) \/ Critical(t) \/ GapSend(t)
+        \/ HbFlush
         \/ \E k \in W : Recv(k) \/ Send(k) \/ Turn(k) \/ Release(k)
-        \/ StopLock \/ StopWait
+        \/ StopLock \/ StopFlush \/ StopWait
 Spec == Init /\ [][Next]_vars
-FairSpec == Spec /\ \A t \in Threads : WF_vars(LockMu(t) \/ Critical(t) \/ GapSend(t))
-                 /\ \A k \in W : WF_vars(Recv(k) \/ Send(k) \/ Turn(k) \/ Release(k)) /\ WF_vars(StopLock \/ StopWait)
+FairSpec == Spec /\ \A t \in Threads : WF_vars(LockMu(t) \/ Critical(t) \/ GapSend(t)) /\ WF_vars(HbFlush)
+                 /\ \A k \in W : WF_vars(Recv(k) \/ Send(k) \/ Turn(k) \/ Release(k)) /\ WF_vars(StopLock \/ StopFlush \/ StopWait)
 
 -----------------------------------------------------------------------------
 SeqToSet(s) == {s[i] : i \in 1..Len(s)}
@@ -141,7 +198,9 @@ CommitOnce == \A i, j \in 1..Len(committed) : i # j => committed[i] # committed[
 \* batches are committed in the order they were formed (= sequence numbers), each after its own send
 CommitInSeqOrder ==
   LET seqOfEv(e) == (CHOOSE i \in 1..Len(sent) : e \in SeqToSet(sent[i].ids))
-  IN \A i, j \in 1..Len(committed) : i < j => sent[seqOfEv(committed[i])].seq <= sent[seqOfEv(committed[j])].seq
+  IN \A i, j \in 1..Len(committed) : i < j => sent[seqOfEv(committed[i])].gen <= sent[seqOfEv(committed[j])].gen
+\* a batch object is handed to the output once per use: no event is in two sends
+HandOverOnce == \A i, j \in 1..Len(sent) : i # j => SeqToSet(sent[i].ids) \cap SeqToSet(sent[j].ids) = {}
 \* bounded staleness: an open non-empty batch does not survive two heartbeat ticks
 Staleness == age <= 1
 \* without Stop every added event is committed exactly once (liveness) ; with Stop: everything sealed before the close is committed
